@@ -1231,6 +1231,7 @@ func (st *inlineState) normalise(body *ast.BlockStmt) {
 		}
 	}
 	lists = func(list []ast.Stmt) []ast.Stmt {
+		list = st.foldConstruction(list)
 		var out []ast.Stmt
 		for _, s := range list {
 			out = append(out, one(s)...)
@@ -1786,6 +1787,111 @@ func (st *inlineState) unrollLiteralRange(x *ast.RangeStmt, scope *ast.BlockStmt
 			st.replaceUses(reflect.ValueOf(cp), lv, e)
 		}
 		out = append(out, cp.List...)
+	}
+	return out
+}
+
+
+// foldConstruction: `x := new(T)` (or `x := &T{}` / `x := &T{…}`) followed
+// directly by assignments `x.F = e` to distinct fields of T whose values do not
+// mention x is the composite literal `x := &T{…, F: e}`.
+func (st *inlineState) foldConstruction(list []ast.Stmt) []ast.Stmt {
+	var out []ast.Stmt
+	for i := 0; i < len(list); i++ {
+		as, ok := list[i].(*ast.AssignStmt)
+		if !ok || as.Tok != token.DEFINE || len(as.Lhs) != 1 || len(as.Rhs) != 1 {
+			out = append(out, list[i])
+			continue
+		}
+		xid, ok := as.Lhs[0].(*ast.Ident)
+		xv, _ := st.info.Defs[xid].(*types.Var)
+		if !ok || xv == nil {
+			out = append(out, list[i])
+			continue
+		}
+		var lit *ast.CompositeLit
+		var named types.Type
+		rhs := ast.Unparen(as.Rhs[0])
+		switch r := rhs.(type) {
+		case *ast.CallExpr:
+			if id, ok := r.Fun.(*ast.Ident); ok && id.Name == "new" && len(r.Args) == 1 {
+				if tv, ok := st.info.Types[r.Args[0]]; ok && tv.IsType() {
+					if _, isSt := tv.Type.Underlying().(*types.Struct); isSt {
+						named = tv.Type
+						lit = &ast.CompositeLit{Type: r.Args[0], Lbrace: r.Lparen, Rbrace: r.Rparen}
+					}
+				}
+			}
+		case *ast.UnaryExpr:
+			if cl, ok := ast.Unparen(r.X).(*ast.CompositeLit); ok && r.Op == token.AND {
+				if t := st.info.TypeOf(cl); t != nil {
+					if _, isSt := t.Underlying().(*types.Struct); isSt {
+						keyed := true
+						for _, e := range cl.Elts {
+							if _, isKV := e.(*ast.KeyValueExpr); !isKV {
+								keyed = false
+							}
+						}
+						if keyed {
+							named, lit = t, cl
+						}
+					}
+				}
+			}
+		}
+		if lit == nil {
+			out = append(out, list[i])
+			continue
+		}
+		have := map[string]bool{}
+		for _, e := range lit.Elts {
+			if kv, ok := e.(*ast.KeyValueExpr); ok {
+				if id, ok := kv.Key.(*ast.Ident); ok {
+					have[id.Name] = true
+				}
+			}
+		}
+		var added []ast.Expr
+		j := i + 1
+		for ; j < len(list); j++ {
+			fa, ok := list[j].(*ast.AssignStmt)
+			if !ok || fa.Tok != token.ASSIGN || len(fa.Lhs) != 1 || len(fa.Rhs) != 1 {
+				break
+			}
+			se, ok := ast.Unparen(fa.Lhs[0]).(*ast.SelectorExpr)
+			if !ok || VarOf(st.info, se.X) != xv {
+				break
+			}
+			f := FieldOf(st.info, se)
+			if f == nil || have[f.Name()] {
+				break
+			}
+			mentions := false
+			ast.Inspect(fa.Rhs[0], func(n ast.Node) bool {
+				if id, ok := n.(*ast.Ident); ok && st.info.Uses[id] == types.Object(xv) {
+					mentions = true
+				}
+				return true
+			})
+			if mentions {
+				break
+			}
+			have[f.Name()] = true
+			key := &ast.Ident{Name: f.Name(), NamePos: se.Sel.Pos()}
+			st.info.Uses[key] = f
+			added = append(added, &ast.KeyValueExpr{Key: key, Colon: fa.TokPos, Value: fa.Rhs[0]})
+		}
+		if len(added) == 0 {
+			out = append(out, list[i])
+			continue
+		}
+		nl := &ast.CompositeLit{Type: lit.Type, Lbrace: lit.Lbrace, Elts: append(append([]ast.Expr{}, lit.Elts...), added...), Rbrace: lit.Rbrace}
+		st.info.Types[nl] = types.TypeAndValue{Type: named}
+		u := &ast.UnaryExpr{OpPos: as.Rhs[0].Pos(), Op: token.AND, X: nl}
+		st.info.Types[u] = types.TypeAndValue{Type: types.NewPointer(named)}
+		out = append(out, &ast.AssignStmt{Lhs: as.Lhs, TokPos: as.TokPos, Tok: token.DEFINE, Rhs: []ast.Expr{u}})
+		st.changed = true
+		i = j - 1
 	}
 	return out
 }
